@@ -127,10 +127,13 @@ class _ScopeBase:
 
         builtins = global_dict["__builtins__"] if "__builtins__" in global_dict else {}
 
-        for name in local_names:
+        # the names arrive as sets of strings: iterate in a fixed order, the
+        # order of the resulting dict decides which alias names an object
+        # and must not depend on the hash seed
+        for name in sorted(local_names):
             result[name] = _Unbound
 
-        for name in nonlocal_names:
+        for name in sorted(nonlocal_names):
             if name in nonlocal_dict:
                 result[name] = nonlocal_dict[name]
             elif name in global_dict:
